@@ -40,17 +40,17 @@ class P(Profile):
     n_min = 2
     n_max = 4
     auto_fence = (True, True, True, False)
-    fault_ops = ('cut', 'cut', 'mute', 'heal', 'heal_all', 'crash', 'restart', 'restart')
+    fault_ops = ('cut', 'cut', 'mute', 'heal', 'heal_all', 'crash', 'restart', 'restart_slow', 'restart_slow')
     proc_ops = ('exit', 'direct_start', 'direct_stop', 'group_ops')
     user_ops = ('rpc_disable',)
     op_rate = 0.35
     ops_per_step_max = 2
-    steps_max = 60
+    steps_max = 80
     warmups = (0, 30, 45)
     sv_failure = ('CONTINUE', 'RESYNC')
     sync_sets = ('TIMEOUT', 'LIST,TIMEOUT')
     starting = tuple(STARTING)
-    deviant_option = 0.35
+    deviant_option = 0.2
     late_boot = 0.15
     apps_max = 2
     progs_max = 2
@@ -259,6 +259,39 @@ class IsolationMonitor(Monitor):
                     cands.append((inst, ident, 'isolated'))
                 elif status.state.name in NOT_ADMITTED:
                     cands.append((inst, ident, 'not-admitted'))
+        # handshake trigger: a peer that holds the local instance ISOLATED does not talk to it any more, so the branch
+        # "the peer reports the local instance as ISOLATED" is only reached if one of its ticks still arrives: replay one
+        triggers = []
+        for inst in world.instances:
+            if not inst.alive or inst.supvisors is None:
+                continue
+            for peer in world.instances:
+                if peer is inst or not peer.alive or peer.supvisors is None or not world.reachable(inst, peer):
+                    continue
+                mine = inst.supvisors.context.instances[peer.identifier].state.name
+                theirs = peer.supvisors.context.instances[inst.identifier].state.name
+                if mine == 'STOPPED' and theirs == 'ISOLATED':
+                    triggers.append((inst, peer))
+        ticks = [m for m in self.pool if m[0] == PUB and m[1] == 0]
+        if triggers and ticks and a % 3 == 0:
+            inst, peer = triggers[a % len(triggers)]
+            own = [m for m in ticks if m[2] == peer.identifier] or ticks
+            ctype, etype, old_ident, text = own[b % len(own)]
+            origin, (etype2, body) = json.loads(text)
+            src = list(inst.supvisors.mapper.instances[peer.identifier].source)
+            data = json.dumps([[src[0], src[1], list(src[2])], [etype2, body]])
+            self.busy = True
+            try:
+                with world.as_current(inst):
+                    try:
+                        inst.supervisor_rpc.sendRemoteCommEvent(ctype, data)
+                    except Exception as exc:
+                        self.flags.add('probe-raised:' + type(exc).__name__)
+            finally:
+                self.busy = False
+            self.flags.add('probe:handshake-trigger')
+            world.obs('probe', inst.idx, peer.identifier, 'handshake-trigger', 'pub:TICK')
+            return
         if not cands:
             return
         # isolated candidates first (the main subject)
